@@ -18,6 +18,9 @@ import traceback
 
 ROOT = os.path.dirname(os.path.dirname(os.path.abspath(__file__)))
 sys.path.insert(0, ROOT)
+REPO = os.path.realpath(os.environ.get("VERIF_REPO", "/repo"))
+# evidence and replays of runs against a scratch tree never land in /verif/evidence
+OUT = ROOT if REPO == "/repo" else os.environ.get("VERIF_OUT_DIR", "/tmp/verif_scratch_out")
 
 from symx import core  # noqa: E402
 
@@ -227,6 +230,11 @@ def main(argv=None):
     pid = a.pid
     tier = a.tier if a.tier in ("quick", "thorough") else "quick"
     t0 = time.time()
+    import acnportal
+
+    if not os.path.realpath(acnportal.__file__).startswith(REPO + os.sep):
+        print("INCONCLUSIVE property=%s reason=acnportal imported from %s, not from the tree under test %s" % (pid, acnportal.__file__, REPO))
+        return 3
     mod = importlib.import_module("props." + pid)
     jobs = mod.jobs(tier)
     if a.only:
@@ -309,8 +317,8 @@ def report(pid, tier, seed, mod, outs, wall, verbose=False, partial=False):
             if t not in tags:
                 inconclusive.append("vacuity guard: no path of any job reached '%s'" % t)
     # ---- output
-    os.makedirs(os.path.join(ROOT, "evidence"), exist_ok=True)
-    os.makedirs(os.path.join(ROOT, "replays", pid), exist_ok=True)
+    os.makedirs(os.path.join(OUT, "evidence"), exist_ok=True)
+    os.makedirs(os.path.join(OUT, "replays", pid), exist_ok=True)
     printed = set()
     for k, c in known_hits:
         if k["id"] in printed:
@@ -324,7 +332,7 @@ def report(pid, tier, seed, mod, outs, wall, verbose=False, partial=False):
         if sig in seenv or len(seenv) >= 12:
             continue
         seenv.add(sig)
-        fn = os.path.join(ROOT, "replays", pid, re.sub(r"[^A-Za-z0-9_.-]+", "_", "%s__%s" % (c["job"], c["label"]))[:150] + ".json")
+        fn = os.path.join(OUT, "replays", pid, re.sub(r"[^A-Za-z0-9_.-]+", "_", "%s__%s" % (c["job"], c["label"]))[:150] + ".json")
         json.dump(dict(property=pid, tier=tier, job=c["job"], label=c["label"], assignment=c["assignment"], detail=c.get("detail"),
                        how="./check --replay " + fn), open(fn, "w"), indent=1)
         vio_files.append(fn)
@@ -337,7 +345,7 @@ def report(pid, tier, seed, mod, outs, wall, verbose=False, partial=False):
         print("INCONCLUSIVE property=%s reason=%s" % (pid, r))
     level = getattr(mod, "LEVEL", "model_checking")
     ev = dict(
-        property_id=pid, tier=tier, seed=seed, level=level,
+        property_id=pid, tier=tier, seed=seed, level=level, tree_under_test=REPO, tree_head=_git_head(REPO),
         coverage=dict(
             states=max(tot["paths"] - tot["aborts"], 0), transitions=max(tot["decisions"], 0) + max(tot["paths"] - tot["aborts"], 0),
             traces_validated_against_impl=tot["validated"],
@@ -363,7 +371,7 @@ def report(pid, tier, seed, mod, outs, wall, verbose=False, partial=False):
     if ev["coverage"]["transitions"] < 1:
         ev["coverage"]["transitions"] = 1
     if not partial:
-        json.dump(ev, open(os.path.join(ROOT, "evidence", pid + ".json"), "w"), indent=1, default=str)
+        json.dump(ev, open(os.path.join(OUT, "evidence", pid + ".json"), "w"), indent=1, default=str)
     print("%s tier=%s: jobs=%d paths=%d obligations=%d discharged=%d validated_on_impl=%d queries=%d solver_s=%.1f wall_s=%.1f -> %s" % (
         pid, tier, len(outs), tot["paths"], tot["obligations"], tot["unsat"], tot["validated"], tot["checks"], tot["solver_s"], wall,
         ev["coverage"]["verdict"]))
@@ -374,6 +382,17 @@ def report(pid, tier, seed, mod, outs, wall, verbose=False, partial=False):
             print("  job %-40s paths=%-5d obl=%-6d unsat=%-6d val=%d div=%d exc=%d wall=%.1fs tags=%s" % (
                 o["job"], o["paths"], o["obligations"], o["unsat"], o["validated"], o["diverged"], len(o["exceptions"]), o["wall_s"], dict(list(o["tags"].items())[:6])))
     return status
+
+
+def _git_head(repo):
+    try:
+        import subprocess
+
+        h = subprocess.run(["git", "-C", repo, "rev-parse", "--short", "HEAD"], capture_output=True, text=True).stdout.strip()
+        d = subprocess.run(["git", "-C", repo, "status", "--porcelain", "--untracked-files=no"], capture_output=True, text=True).stdout.strip()
+        return h + ("+dirty" if d else "")
+    except Exception:
+        return None
 
 
 def replay(path):
